@@ -1,22 +1,42 @@
-import eng_topoload
+import eng_topoload, eng_setstage
 PID = "C01"
 LEAN_MODULE = "Hw.Props.C01"
 NS = "Hw.Props.C01."
 THEOREMS = [NS + t for t in """C01_oracle_exact C01_gp_index_unique C01_pu_os_index_unique C01_numa_os_index_unique
 C01_single_machine_root C01_no_filtered_type C01_set_in_complete C01_pu_cpuset C01_numa_nodeset C01_allowed_sets
-C01_discovery_by_insertion""".split()]
+C01_discovery_by_insertion
+C01_setstage_pre_decidable C01_setstage_set_in_complete C01_setstage_set_in_parent C01_setstage_memory_child_shares_cpuset
+C01_setstage_siblings_disjoint C01_setstage_nodeset_decomposition C01_setstage_allowed_sets C01_setstage_within_allowed C01_setstage_no_object_lost""".split()]
 TRUSTED = ["C01_discovery_by_insertion is about the model of hwloc___insert_object_by_cpuset (lean/Hw/Topo/Insert.lean); that model is tied to the "
            "code by the C02 history engine, which predicts the exact tree after every hwloc_topology_insert_group_object call (new object = "
            "Group; the type-order table used for other new types is generated from the source by tools/gen_restrict.py but exercised only "
            "through Groups)",
+           "the C01_setstage_* theorems are about the model of the set pipeline of hwloc_discover (lean/Hw/Topo/SetStage.lean: 'Fixup root sets', "
+           "propagate_nodeset, fixup_sets with hwloc__reorder_children_if_needed, remove_unused_sets); that model is tied to the code by the "
+           "set-stage engine: the library built with -DHWLOC_VERIF dumps the whole tree before and after the stage (hook in hwloc_discover, "
+           "environment variable HWLOC_VERIF_STAGE_DUMP) and the model must reproduce the AFTER dump from the BEFORE dump exactly; their "
+           "precondition PreSets is evaluated on every BEFORE dump (violations are counted in the evidence: setstage.pre_violated); without the hook in the source the engine observes nothing",
            "harness/dump.h as a faithful reading of the topology through the public API; lean/Driver/Topo.lean as its parser",
            "PARTIAL: that hwloc's loaders (synthetic, XML, Linux, x86, core pipeline) establish WF is NOT proved; it is checked by the proved oracle on every loaded topology of the run"]
 ASSUMPTIONS = ["sources: generated synthetic strings, bundled XML files, bundled Linux and x86 snapshots; flag subsets of {INCLUDE_DISALLOWED, IMPORT_SUPPORT, DONT_CHANGE_BINDING, NO_DISTANCES, NO_MEMATTRS, NO_CPUKINDS}; the live machine is not loaded natively"]
 MODELLED = ("modelled: the well-formedness predicate (every clause of the property) and its consequences; "
+            "modelled and proved: hwloc___insert_object_by_cpuset and the set pipeline of hwloc_discover (root fixup, propagate_nodeset, fixup_sets, "
+            "remove_unused_sets); not modelled: the back ends, hwloc__attach_memory_object, level connection, filtering, remove_empty, total memory; "
             "not modelled: the loaders themselves (exercised: each loaded topology is dumped and judged; hwloc_topology_check() must not abort)")
 
 def run_engines(tier, seed):
-    return eng_topoload.run_engine(tier, seed)
+    """two engines: `topo-load` (every loaded topology judged by the proved oracle) and `set-stage` (the set pipeline of hwloc_discover
+    against its model; needs the HWLOC_VERIF stage-dump hook in the source, observes nothing without it)"""
+    a = eng_topoload.run_engine(tier, seed)
+    b = eng_setstage.run_engine(tier, seed)
+    dist = dict(a.get("distribution", {}))
+    dist.update({"setstage." + k: v for k, v in b.get("distribution", {}).items()})
+    return {"evaluations": a["evaluations"] + b["evaluations"], "distinct_nontrivial": a["distinct_nontrivial"] + b["distinct_nontrivial"],
+            "distribution": dist, "sources": a.get("sources"), "problems": list(a.get("problems", [])) + list(b.get("problems", [])),
+            "samples": list(a.get("samples", []))[:4] + list(b.get("samples", []))[:4],
+            "engines": {"topo-load": a["evaluations"], "set-stage": b["evaluations"]},
+            "setstage_pre_violation_samples": b.get("pre_violation_samples", []),
+            "rule": "topo-load: " + a.get("rule", "") + " || set-stage: " + b.get("rule", "")}
 
 def replay(path):
     """./check C01 --replay FILE: load every plan line of FILE ('#' lines ignored; @SNAP@ = extracted snapshot directory) with both XML
@@ -45,5 +65,24 @@ def replay(path):
                     bad += 1
     finally:
         shutil.rmtree(wd, ignore_errors=True)
+    if eng_setstage.hook_present():
+        bins = build_harness("setstage")
+        wd = os.path.join(BUILD, "run", "setstage-replay-%d" % os.getpid())
+        try:
+            for l in read_lines(path):
+                if not l.strip() or l.startswith("#"):
+                    continue
+                l = l.replace("@SNAP@", snapshots.SNAP).replace("@REPO@", eng_setstage.REPO).replace("@ROOT@", eng_setstage.ROOT)
+                cid = l.split()[0]
+                for lx in (0, 1):
+                    rr, vv = eng_setstage.replay_case(bins, wd, l, lx)
+                    v = vv.get(cid)
+                    why = eng_setstage.judge(v) if v else None
+                    print("%s [set-stage, HWLOC_LIBXML=%d] -> %s" % (l, lx, "no stage dump (load failed before the stage)" if not v or not v["pre"]
+                                                                     else why or (v["pre"] + " / " + v["post"])))
+                    if rr.returncode != 0 or why:
+                        bad += 1
+        finally:
+            shutil.rmtree(wd, ignore_errors=True)
     print("REPLAY: %s" % ("NOT WELL-FORMED / FAILS" if bad else "every loaded topology is well-formed"))
     return 1 if bad else 0
